@@ -213,7 +213,7 @@ def solve_minor_model(
                     name=f"MUL_N_{m.pos}_{m.op}_{a[0].major}_{a[0].minor}_{a[1]}",
                 ),
             )
-            for m in mutations
+            for m in sorted(mutations)  # fixed order: the tie-breaker below numbers them
             if gene.has_coverage(a[0].major, m.pos) and m not in alleles[a]
         }
         for a in alleles
